@@ -46,6 +46,8 @@ structure STable where
   precedes : List (String × String) := []
   /-- an added constraint / index named a column that does not exist: nothing is demanded of it -/
   unresolved : Bool := false
+  /-- names of constraints / indexes that went away with a dropped column (dropping them afterwards is fine) -/
+  implicitlyGone : List String := []
   deriving Repr
 
 def STable.ofSchema (s : Schema) : STable :=
@@ -72,12 +74,14 @@ def STable.mapCol (t : STable) (n : String) (f : SCol → SCol) : STable :=
   { t with cols := t.cols.map (fun c => if c.col.name == n then f c else c) }
 
 inductive SErr where
-  | undefined   -- the sequence names a column / constraint / index that does not exist, or re-adds an existing column
+  | undefined   -- the sequence names a column / constraint / index that does not exist
+  | mustReject  -- add_column under the name of an existing column: no table satisfies both "added" and "untouched"
   deriving Repr, DecidableEq
 
 def specOp (t : STable) : BatchOp → Except SErr STable
   | .addColumn c before after _ =>
-    if (t.cols.any (fun x => x.col.name == c.name || x.orig == some c.name)) then .error .undefined
+    if t.cols.any (fun x => x.orig.isSome && (x.col.name == c.name || x.orig == some c.name)) then .error .mustReject
+    else if t.cols.any (fun x => x.col.name == c.name) then .error .undefined
     else
       let t1 := { t with cols := t.cols ++ [{ col := { c with index := false }, orig := none }] }
       let t2 := match before.bind t.resolve with
@@ -102,6 +106,10 @@ def specOp (t : STable) : BatchOp → Except SErr STable
         checks := t.checks.filter (fun c => !c.mentions.contains cur),
         fks := t.fks.filter keep,
         indexes := t.indexes.filter (fun i => !i.cols.contains cur),
+        implicitlyGone := t.implicitlyGone ++
+          ((t.uniques ++ t.fks).filter (fun c => c.cols.contains cur)).filterMap (·.name) ++
+          (t.checks.filter (fun c => c.mentions.contains cur)).filterMap (·.name) ++
+          (t.indexes.filter (fun i => i.cols.contains cur)).map (·.name),
         precedes := t.precedes.filter (fun p => p.1 != cur && p.2 != cur) }
   | .alterColumn n newName newType nullable dflt =>
     match t.resolve n with
@@ -139,15 +147,18 @@ def specOp (t : STable) : BatchOp → Except SErr STable
     else if t.uniques.any named || t.checks.any named || t.fks.any named then
       .ok { t with uniques := t.uniques.filter (!named ·), checks := t.checks.filter (!named ·),
                    fks := t.fks.filter (!named ·), absentConsts := n :: t.absentConsts }
+    else if t.implicitlyGone.contains n then .ok { t with absentConsts := n :: t.absentConsts }
     else .error .undefined
   | .createIndex ix =>
-    if t.indexes.any (·.name == ix.name) then .error .undefined
+    -- re-using the name of an index of the original table inside the same batch is outside the reference interpreter
+    if t.indexes.any (·.name == ix.name) || t.implicitlyGone.contains ix.name || t.absentIndexes.contains ix.name then .error .undefined
     else match ix.cols.mapM t.resolve with
       | none => .ok { t with unresolved := true }
       | some cols => .ok { t with indexes := t.indexes ++ [{ ix with cols := cols }] }
   | .dropIndex n =>
     if t.indexes.any (·.name == n) then
       .ok { t with indexes := t.indexes.filter (·.name != n), absentIndexes := n :: t.absentIndexes }
+    else if t.implicitlyGone.contains n then .ok { t with absentIndexes := n :: t.absentIndexes }
     else .error .undefined
 
 def specApply (t : STable) : List BatchOp → Except SErr STable
@@ -261,6 +272,8 @@ def check10 (ct : ConvTable) (_table : String) (before : Tbl) (ops : List BatchO
   (if tmpLike.isEmpty then [] else ["no_tmp: temporary table left behind: " ++ toString tmpLike]) ++
   (if after.rows.length == before.rows.length then [] else ["rowcount: number of rows changed"]) ++
   (match specApply (STable.ofSchema before.schema) ops with
+   | .error .mustReject =>
+     ["values: the batch adds a column under the name of an existing column and was accepted: the existing column's values are replaced"]
    | .error _ => []
    | .ok t =>
      (if rowsMatch (before.rows.map (expectedRow ct before.schema t)) (after.rows.map (actualRow after.schema t)) then []
@@ -289,7 +302,10 @@ def retrievableIn (ct : ConvTable) (before : Tbl) (spec : Option STable) (t : Tb
    | some s =>
      s.cols.all (fun c => c.orig.isNone || (colIndex t.schema.cols c.col.name).isSome) &&
      rowsMatch (before.rows.map (expectedRow ct before.schema s)) (t.rows.map (actualRow t.schema s))
-   | none => false)
+   | none =>
+     -- the operation sequence is outside the reference interpreter (it names things that do not exist):
+     -- only the number of rows is judged
+     t.rows.length == before.rows.length)
 
 def check11 (ct : ConvTable) (before : Tbl) (ops : List BatchOp) (early : Bool) (after : Db) : List String :=
   let spec := (specApply (STable.ofSchema before.schema) ops).toOption
@@ -301,5 +317,29 @@ def check11 (ct : ConvTable) (before : Tbl) (ops : List BatchOp) (early : Bool) 
       | none => ["early: original table missing"]) ++
      (if after.tmp.isSome then ["early_tmp: temporary table left behind after a failure at or before DROP of the original"] else [])
    else [])
+
+/-! ## the same notions on the model's exact states (what the theorems are stated against) -/
+
+/-- the copy of `t0`'s rows through the `INSERT … SELECT` feeds -/
+def copiedRows (ct : ConvTable) (t0 : Tbl) (feeds : List (ColDef × Option Expr)) : List Row :=
+  t0.rows.map (project ct t0.schema.cols feeds)
+
+/-- all rows of `t0` are retrievable from `db`: the original table is there untouched, or a table under the
+    original or the temporary name holds exactly the copied rows -/
+def Retrievable (ct : ConvTable) (t0 : Tbl) (feeds : List (ColDef × Option Expr)) (db : Db) : Prop :=
+  db.orig = some t0 ∨ ∃ t, (db.orig = some t ∨ db.tmp = some t) ∧ t.rows = copiedRows ct t0 feeds
+
+/-- row-wise reading of `rows(orig) ∪ rows(tmp) ⊇ original rows` (a copied row stands for its original) -/
+def Superset (ct : ConvTable) (t0 : Tbl) (feeds : List (ColDef × Option Expr)) (db : Db) : Prop :=
+  ∀ r ∈ t0.rows,
+    (∃ t, db.orig = some t ∧ t.schema = t0.schema ∧ r ∈ t.rows) ∨
+    (∃ t, (db.orig = some t ∨ db.tmp = some t) ∧ project ct t0.schema.cols feeds r ∈ t.rows)
+
+theorem Retrievable.superset {ct : ConvTable} {t0 : Tbl} {feeds : List (ColDef × Option Expr)} {db : Db}
+    (h : Retrievable ct t0 feeds db) : Superset ct t0 feeds db := by
+  intro r hr
+  rcases h with h | ⟨t, ht, hrows⟩
+  · exact .inl ⟨t0, h, rfl, hr⟩
+  · exact .inr ⟨t, ht, by rw [hrows]; exact List.mem_map_of_mem hr⟩
 
 end Spec.Batch
